@@ -34,11 +34,11 @@ Definition opt_node_eqb (a b : option node) : bool :=
   end.
 
 (* the node FieldSetter returns: the stored value, or (null value = Clear) the removed one *)
-Definition set_ret (name : string) (v m m' : node) : option node :=
+Definition set_ret (nonstr : string -> bool) (name : string) (v m m' : node) : option node :=
   if is_null v then match m with Map kvs => find_field name kvs | _ => None end
   else match m' with
        | Map kvs => find_field name kvs
-       | _ => Some v
+       | _ => Some (quote11 nonstr v)   (* value returned after the YAML-1.1 forced quoting *)
        end.
 
 (* model outcome: document afterwards and the node the pipe returned *)
@@ -52,12 +52,12 @@ Definition run14 (c : case14) : res (node * option node) :=
   | OPut name v =>
       do r <- walk (Some KMap) ps
                 (fun m => do m' <- set_field nonstr name (Some v) false m;
-                          Ok (m', set_ret name v m m')) d;
+                          Ok (m', set_ret nonstr name v m m')) d;
       Ok (fst r, match snd r with Some (Some x) => Some x | _ => None end)
   | OPutNC name v =>
       do r <- walk None ps
                 (fun m => do m' <- set_field nonstr name (Some v) false m;
-                          Ok (m', set_ret name v m m')) d;
+                          Ok (m', set_ret nonstr name v m m')) d;
       Ok (fst r, match snd r with Some (Some x) => Some x | _ => None end)
   | OClear name =>
       do r <- walk None ps
